@@ -1203,7 +1203,8 @@ def run_C07(ctx):
             idx += 1
         for _ in range(rnd.randint(1, R + 1)):
             items.append("A 1 %d %s" % (idx, gen.hx(gen.rand_payload(rnd, big=0.0)))); idx += 1
-        items += ["F 1", "wi", "G", "R 0 100000", "D"]
+        # E: drain what is evictable (the worker has moved the boundary; eviction itself only runs at an insert)
+        items += ["F 1", "wi", "E", "G", "R 0 100000", "D"]
         fr_sched.append((R, " ; ".join(items)))
     fr_cases = []
     for R, sch in fr_sched:
